@@ -282,6 +282,13 @@ func (i *interpreter) evalSimple(v ssa.Value, depth int) (value, bool) {
 			return nil, false
 		}
 		return iface{t: v.X.Type(), v: x}, true
+	case *ssa.Alloc:
+		// &T{} with no field initialisers: the only use is the store into the global
+		if refs := v.Referrers(); v.Heap && refs != nil && len(*refs) == 1 {
+			cell := zero(mustDeref(v.Type()))
+			return &cell, true
+		}
+		return nil, false
 	case *ssa.ChangeType:
 		return i.evalSimple(v.X, depth+1)
 	case *ssa.Convert:
